@@ -336,6 +336,47 @@ def install():
     _tl.asyncio = _AsyncioShim
     _tl.multiprocessing = _MpShim
     _h.selectors = _SelectorsShim
+    _install_fuel()
+
+
+class Stall(BaseException):
+    """Raised by the fuel watchdog: one executor iteration called the input-consuming primitives more often than any terminating
+    run can. BaseException so that no `except Exception` of the code under test swallows it."""
+
+
+FUEL = [None]           # remaining calls of the wrapped primitives in the current executor iteration; None = watchdog off
+FUEL_PER_STEP = 400     # far above what a step over <= ~200 input bytes needs (every wrapped call consumes >= 1 byte or ends its loop)
+
+
+def _install_fuel():
+    """Wrap the primitives that every input-driven loop of proxy.py goes through (parser steps, frame parsing, socket reads and
+    flushes) with a call counter. A loop that stops making progress (e.g. `while remaining: remaining = frame.parse(remaining)` with a
+    parse that consumes nothing) runs out of fuel and surfaces as Stall instead of hanging the check."""
+    from proxy.http.parser.parser import HttpParser
+    from proxy.http.parser.chunk import ChunkParser
+    from proxy.http.websocket.frame import WebsocketFrame
+    from proxy.core.connection.connection import TcpConnection
+    targets = [(HttpParser, '_process_line'), (HttpParser, '_process_headers'), (HttpParser, '_process_body'), (HttpParser, 'parse'),
+               (ChunkParser, 'process'), (WebsocketFrame, 'parse'), (TcpConnection, 'recv'), (TcpConnection, 'flush')]
+    for klass, name in targets:
+        fn = klass.__dict__[name]
+        if getattr(fn, '_fuel_wrapped', False):
+            continue
+
+        def mk(fn):
+            def wrapped(*a, **kw):
+                if FUEL[0] is not None:
+                    FUEL[0] -= 1
+                    if FUEL[0] < 0:
+                        FUEL[0] = None
+                        raise Stall('no progress: %s called more than %d times in one iteration' % (fn.__qualname__, FUEL_PER_STEP))
+                return fn(*a, **kw)
+            wrapped._fuel_wrapped = True
+            wrapped.__name__ = fn.__name__
+            wrapped.__qualname__ = fn.__qualname__
+            wrapped.__doc__ = fn.__doc__
+            return wrapped
+        setattr(klass, name, mk(fn))
 
 
 class _AsyncioShim:
@@ -427,9 +468,14 @@ class Executor:
         """One iteration of the executor loop. Returns the exception that escaped, if any."""
         from vlib.hk import run
         self.sync()
+        FUEL[0] = FUEL_PER_STEP
         try:
             run(self.ex._run_once())
         except Exception as e:      # noqa
             return e
+        except Stall as e:
+            return RuntimeError('executor iteration does not terminate (%s): every connection of this worker is stalled' % e)
+        finally:
+            FUEL[0] = None
         self.sync()
         return None
